@@ -119,6 +119,12 @@ func (uv *UtxoVM) CheckInputEqualOutput(tx *pb.Transaction) error {
 		}
 		outputSum.Add(outputSum, amount)
 	}
+	// a coinbase creates its outputs out of nothing: it carries no signature, so it must not spend anything
+	// (its outputs would also be counted as new supply although the spent tokens still exist)
+	if tx.Coinbase && len(tx.TxInputs) > 0 {
+		uv.log.Warn("coinbase tx must not have inputs", "txid", utils.F(tx.Txid))
+		return ErrUnexpected
+	}
 	// then we check inputs
 	inputSum := big.NewInt(0)
 	curLedgerHeight := uv.ledger.GetMeta().TrunkHeight
